@@ -992,8 +992,8 @@ def streams(tier):
     th = tier == "thorough"
     return [
         Stream("atomicity_certificate", gen_certificate, check_certificate, None, parallel=False, timeout=900),
-        Stream("exhaustive", gen_exhaustive(5 if th else 4, 8000 if th else 600), check_exhaustive, shrink_alpha, timeout=600),
-        Stream("random_histories", gen_random(5000 if th else 800, 200 if th else 60), check_history, shrink_ops, timeout=120),
+        Stream("exhaustive", gen_exhaustive(5 if th else 4, 8000 if th else 1500), check_exhaustive, shrink_alpha, timeout=600),
+        Stream("random_histories", gen_random(5000 if th else 1500, 200 if th else 60), check_history, shrink_ops, timeout=120),
         Stream("reserved_search_keys", gen_random(1500 if th else 200, 40, reserved=True), check_history, shrink_ops, timeout=120),
         Stream("concurrent_clients", gen_concurrent(64 if th else 16, 400 if th else 300, 8, 8 if th else 2), check_concurrent, shrink_concurrent, timeout=900),
         Stream("null_storage", gen_null, check_null, None, timeout=30),
